@@ -53,6 +53,10 @@ RUNS = {
     "C03": [
         {"name": "K6-client-server", "mode": "kcs", "budget": (2400, 60000), "nontrivial": r" c0=", "keyfn": "kcs"},
     ],
+    "C10": [
+        {"name": "K6-pool", "mode": "kpool", "budget": (3000, 100000), "nontrivial": r"x", "keyfn": "generic"},
+        {"name": "K6-mux", "mode": "kmux", "budget": (600, 15000), "nontrivial": r".", "keyfn": "generic"},
+    ],
     "C02": [
         {"name": "K2-framing", "mode": "k2", "budget": (1500, 40000), "nontrivial": r"recv\d+=(msg|proto)", "keyfn": "k2"},
     ],
@@ -61,6 +65,25 @@ RUNS = {
 NOT_YET = {}
 
 PROPS = {
+    "C10": {
+        "level_text": "Proof: the allocator keeps (cache ++ outstanding) duplicate-free within [start, limit) under every Get/Put sequence (induction), "
+                      "so outstanding tags/fids are pairwise distinct and never NOTAG/NOFID, and exhaustion fails instead of duplicating; the request "
+                      "multiplexer is a labelled transition system (labels = goroutine moves + server sends + transport failure) in which, for every "
+                      "label sequence: a done channel only ever holds the reply with the call's own tag or an error and finished calls returned exactly "
+                      "that (demux, induction over labels); a bad frame or failed transport puts an error into every pending call's channel and "
+                      "empties the map; a waiting call with a readable frame or failed transport never faces a state without an enabled step. The "
+                      "fid-pool Get/Put sites are a regenerated obligation. Partial: Go channel/scheduler behaviour is runtime, observed by kmux.",
+        "level_note": "Trusted: Lean kernel; Client/Pool.lean and Conc/ClientMux.lean are hand-written models of pool.go and of "
+                      "sendRecv/waitAndRecv/handleOne (granularity: one handleOne = one step); tie = K6-pool (exported pool, exact values) and K6-mux "
+                      "(real Client, 2..32 goroutines, scripted fake server answering in random permutations with faults close / short read / unknown "
+                      "tag / wrong type / garbage at every position; monitors: own reply, no hang within 5 s, distinct tags, no fid reused while "
+                      "bound, all unanswered calls fail, later calls fail on a dead link).",
+        "rule": "kpool: pools [0..2, +0..5) so that exhaustion is frequent, 30 operations each; kmux: batches of 2..4 (every permutation reachable) "
+                "and 8..31 concurrent GetAttr calls whose replies identify their request; fault kind and position random. Non-trivial: exhaustion "
+                "reached (kpool) / every case (kmux).",
+        "assumptions": ["a value is Put only while outstanding (client discipline, checked at the Put sites)"],
+        "trusted_base": ["Client/Pool.lean", "Conc/ClientMux.lean"],
+    },
     "C03": {
         "level_text": "Proof + regenerated obligations: every method uses only request types its negotiated version defines (all methods x all "
                       "versions), the newer types as soon as allowed; uid/gid dropped below version 3 and unchanged from 3 on; ExtractErrno returns an "
